@@ -84,7 +84,7 @@ def snapshot(c, annrank, catrank):
 
 def build(pa, rng, count, rep):
     recs, metas = [], []
-    ops = ["shift", "false_pos", "false_neg", "cat_shuffle", "split"]
+    ops = ["shift", "false_pos", "false_neg", "cat_shuffle", "split", "cat_shuffle_prevalence", "cat_shuffle_overlap"]
     flag_sets = list(itertools.product([False, True], repeat=5))
     it = 0
     while len(recs) < count:
@@ -110,7 +110,7 @@ def build(pa, rng, count, rep):
             annrank = {a: i + 1 for i, a in enumerate(names)}
             if rng.random() < 0.4:
                 # a two-step sequence: another perturbation first; the judged one starts from what that left behind
-                first = rng.choice([o for o in ops if o != op])
+                first = rng.choice([o for o in ops[:5] if o != op])
                 try:
                     {"shift": cst.shift_shuffle, "false_pos": cst.false_pos_shuffle, "false_neg": cst.false_neg_shuffle,
                      "cat_shuffle": cst.category_shuffle, "split": cst.splits_shuffle}[first](corpus)
@@ -121,12 +121,19 @@ def build(pa, rng, count, rep):
             before = snapshot(corpus, annrank, catrank)
             anns_before = [annrank[a] for a in corpus.annotators]
             try:
-                {"shift": cst.shift_shuffle, "false_pos": cst.false_pos_shuffle, "false_neg": cst.false_neg_shuffle,
-                 "cat_shuffle": cst.category_shuffle, "split": cst.splits_shuffle}[op](corpus)
+                if op == "cat_shuffle_prevalence":
+                    cst.category_shuffle(corpus, prevalence=True)
+                elif op == "cat_shuffle_overlap":
+                    cst.category_shuffle(corpus, overlapping_fun=lambda a, b: 1.0 if a == b else 0.25 + 0.5 * (len(a) == len(b)), prevalence=rng.random() < 0.5)
+                else:
+                    {"shift": cst.shift_shuffle, "false_pos": cst.false_pos_shuffle, "false_neg": cst.false_neg_shuffle,
+                     "cat_shuffle": cst.category_shuffle, "split": cst.splits_shuffle}[op](corpus)
             except Exception as ex:
                 rep.violation("cst.raises", dict(meta, op=op, exception=repr(ex)))
                 continue
             after = snapshot(corpus, annrank, catrank)
+            meta["op_variant"] = op
+            op = "cat_shuffle" if op.startswith("cat_shuffle") else op
             rec = dict(base, op=op, before=before, after=after, anns_before=anns_before, anns_after=[annrank[a] for a in corpus.annotators],
                        expected_anns=anns_before, magzero=1 if (mag == 0.0) else 0)
             if op == "split":
